@@ -303,6 +303,38 @@ func (g *Gen) quant(op string, x d128.Decimal, dp int, m int) {
 
 func genC08(g *Gen) {
 	g.setMode(0)
+	// the rounding test matrix through Round (six modes), Ceil and Floor: exactly j digits are cut
+	var qjs []int
+	for j := 1; j <= 34; j++ {
+		qjs = append(qjs, j)
+	}
+	qg := tailGrid(qjs)
+	g.gridRun(len(qg), 0.3, func(i int) {
+		t := qg[i]
+		nk := 34 - t.j
+		c := g.tailValue(t)
+		if nk > 0 {
+			k := randDigits(g.r, 1+g.r.Intn(nk))
+			if g.r.Intn(3) == 0 { // an even / odd last kept digit on demand, a carry chain of nines
+				k = new(big.Int).Sub(pow10(1+g.r.Intn(nk)), big.NewInt(int64(1+g.r.Intn(2))))
+			}
+			c.Add(c, new(big.Int).Mul(k, pow10(t.j)))
+		}
+		if c.Sign() == 0 {
+			return
+		}
+		e := g.r.Intn(41) - 20 - t.j
+		if g.r.Intn(6) == 0 {
+			e = eMin + g.r.Intn(eMax-eMin-40)
+		}
+		x := mk(g.r.Intn(2) == 0, c, e)
+		dp := -(e + t.j)
+		for m := 0; m < 6; m++ {
+			g.quant("Round", x, dp, m)
+		}
+		g.quant("Ceil", x, dp, 0)
+		g.quant("Floor", x, dp, 0)
+	})
 	g.encodingGrid(0.1, func(x d128.Decimal) {
 		_, _, _, xe := unmk(x)
 		dp := -xe - 1 + g.r.Intn(3)
